@@ -27,6 +27,8 @@ pub struct ScriptIo {
     pub short_writes: usize,
     pub pendings: usize,
     pub flushes: usize,
+    pub shutdown_called: bool,
+    pub written_at_shutdown: usize,
 }
 
 impl ScriptIo {
@@ -131,7 +133,11 @@ impl AsyncWrite for ScriptIo {
         self.flushes += 1;
         Poll::Ready(Ok(()))
     }
-    fn poll_shutdown(self: Pin<&mut Self>, _cx: &mut Context<'_>) -> Poll<io::Result<()>> {
+    fn poll_shutdown(mut self: Pin<&mut Self>, _cx: &mut Context<'_>) -> Poll<io::Result<()>> {
+        if !self.shutdown_called {
+            self.shutdown_called = true;
+            self.written_at_shutdown = self.written.len();
+        }
         Poll::Ready(Ok(()))
     }
 }
